@@ -12,9 +12,9 @@ import os
 from . import common, tlc
 
 
-def _cfg(path, enforced, extra_constants=None, constraint="Accept", post="Post", invariants=()):
+def _cfg(path, enforced, extra_constants=None, constraint="Accept", post="Post", invariants=(), spec="Spec"):
     enf = "{" + ", ".join(f'"{e}"' for e in sorted(enforced)) + "}"
-    lines = ["SPECIFICATION Spec", "CONSTANTS", f"  Enforced = {enf}"]
+    lines = [f"SPECIFICATION {spec}", "CONSTANTS", f"  Enforced = {enf}"]
     for k, v in (extra_constants or {}).items():
         lines.append(f"  {k} = {v}")
     lines += [f"CONSTRAINT {constraint}", f"POSTCONDITION {post}"]
@@ -24,14 +24,14 @@ def _cfg(path, enforced, extra_constants=None, constraint="Accept", post="Post",
         fh.write("\n".join(lines) + "\n")
 
 
-def _one(module, recs, enforced, extra_constants, idx, timeout, invariants):
+def _one(module, recs, enforced, extra_constants, idx, timeout, invariants, spec):
     d = common.scratch("trace-")
     try:
         tf = os.path.join(d, "trace.json")
         with open(tf, "w") as fh:
             json.dump(recs, fh)
         cfg = os.path.join(d, "trace.cfg")
-        _cfg(cfg, enforced, extra_constants, invariants=invariants)
+        _cfg(cfg, enforced, extra_constants, invariants=invariants, spec=spec)
         res = tlc.run(module, cfg, env={"TRACE_FILE": tf}, workers=1, timeout=timeout,
                       label=f"{module}#shard{idx}")
         return res
@@ -40,8 +40,10 @@ def _one(module, recs, enforced, extra_constants, idx, timeout, invariants):
 
 
 def validate(module, recs, enforced, *, extra_constants=None, shards=None, timeout=3600,
-             invariants=()):
-    """Returns (accepted_idx:set, failures:{idx:[(pid,clause,raw)]}, tlc_results)."""
+             invariants=(), spec="Spec"):
+    """Returns (accepted_idx:set, failures:{idx:[(pid,clause,raw)]}, tlc_results).
+    KNOWN-FINDING lines are collected in validate.known: {idx: {(pid, deviation)}}."""
+    validate.known = {}
     n = len(recs)
     if n == 0:
         return set(), {}, []
@@ -50,7 +52,7 @@ def validate(module, recs, enforced, *, extra_constants=None, shards=None, timeo
     accepted, failures, results = set(), {}, []
     with cf.ThreadPoolExecutor(max_workers=shards) as ex:
         futs = {ex.submit(_one, module, [recs[i] for i in part], enforced, extra_constants, si,
-                          timeout, invariants): part
+                          timeout, invariants, spec): part
                 for si, part in enumerate(parts)}
         for fut in cf.as_completed(futs):
             part = futs[fut]
@@ -67,6 +69,9 @@ def validate(module, recs, enforced, *, extra_constants=None, shards=None, timeo
                 tup = tlc.parse_tuple(line)
                 gi = part[tup[1] - 1]
                 failures.setdefault(gi, []).append((tup[-2], tup[-1], line))
+            for line in res.lines_with("KNOWN-FINDING"):
+                tup = tlc.parse_tuple(line)
+                validate.known.setdefault(part[tup[1] - 1], set()).add((tup[-2], tup[-1]))
             if res.violated:
                 raise common.MachineryError(f"unexpected invariant violation in {res.label}: "
                                             f"{res.violated}\n{res.trace[:3000]}")
